@@ -136,7 +136,11 @@ impl<'ast> syn::visit::Visit<'ast> for NeedsDo {
         if n == "parse_next" && m.args.iter().any(|a| matches!(a, Expr::Reference(r) if r.mutability.is_some())) {
             self.0 = true;
         }
-        if n == "push" || n == "append" || n == "hash" || n == "next" || n == "pop" || n == "insert" || n == "clear" || n == "sort" || n == "extend" {
+        // `x.next()` advances the iterator held in the local `x`; on a temporary it only yields the first item
+        if n == "next" && matches!(&*m.receiver, Expr::Path(_)) {
+            self.0 = true;
+        }
+        if n == "push" || n == "append" || n == "hash" || n == "pop" || n == "insert" || n == "clear" || n == "sort" || n == "extend" {
             self.0 = true;
         }
         syn::visit::visit_expr_method_call(self, m);
@@ -1321,6 +1325,10 @@ impl<'a> Fx<'a> {
                 Lit::Bool(b) => Ok(b.value.to_string()),
                 Lit::Str(s) => Ok(lit_chars(&s.value())),
                 Lit::Char(c) => Ok(lit_chars(&c.value().to_string()).trim_matches(|x| x == '[' || x == ']').to_string()),
+                // an ASCII byte literal: named by its character (see `Rust.byte_eq`)
+                Lit::Byte(b) if b.value() < 0x80 => {
+                    Ok(lit_chars(&(b.value() as char).to_string()).trim_matches(|x| x == '[' || x == ']').to_string())
+                }
                 _ => Err("unsupported literal".into()),
             },
             Expr::Paren(p) => self.expr(&p.expr),
@@ -1449,7 +1457,26 @@ impl<'a> Fx<'a> {
                     Err(format!("unsupported cast to {}", t))
                 }
             }
-            Expr::Index(_) => Err(format!("indexing is not modelled: `{}`", short(e))),
+            Expr::Index(ix) => {
+                // `x[..n]` and `x[n..]`: panic sites (out of range, not a character boundary)
+                if let Expr::Range(r) = &*ix.index {
+                    if matches!(r.limits, RangeLimits::HalfOpen(_)) {
+                        let x = self.expr_atom(&ix.expr)?;
+                        match (&r.start, &r.end) {
+                            (None, Some(n)) => {
+                                self.site("index", ix.span(), short(e));
+                                return Ok(format!("(Rust.index_to {} {})", x, self.expr_atom(n)?));
+                            }
+                            (Some(n), None) => {
+                                self.site("index", ix.span(), short(e));
+                                return Ok(format!("(Rust.index_from {} {})", x, self.expr_atom(n)?));
+                            }
+                            _ => {}
+                        }
+                    }
+                }
+                Err(format!("indexing is not modelled: `{}`", short(e)))
+            }
             Expr::Range(_) => Err(format!("ranges are not modelled: `{}`", short(e))),
             _ => Err(format!("unsupported expression `{}`", short(e))),
         }
@@ -1491,6 +1518,16 @@ impl<'a> Fx<'a> {
                 let xs = self.expr_atom(x)?;
                 let ys = self.expr_atom(y)?;
                 return Ok(format!("(Rust.ptr_diff {} {})", xs, ys));
+            }
+        }
+        if let Eq(_) = b.op {
+            // `b == b'\n'`: a byte against an ASCII byte literal
+            let is_byte = |e: &Expr| matches!(e, Expr::Lit(ExprLit { lit: Lit::Byte(_), .. }));
+            if is_byte(&b.right) && !is_byte(&b.left) {
+                return Ok(format!("(Rust.byte_eq {} {})", self.expr_atom(&b.left)?, self.expr(&b.right)?));
+            }
+            if is_byte(&b.left) && !is_byte(&b.right) {
+                return Ok(format!("(Rust.byte_eq {} {})", self.expr_atom(&b.right)?, self.expr(&b.left)?));
             }
         }
         let l = self.expr_atom(&b.left)?;
@@ -1553,6 +1590,7 @@ impl<'a> Fx<'a> {
                 return Err(format!("str::parse{} is not modelled", tf));
             }
             "Default::default" if args.is_empty() => return Ok("default".into()),
+            "bytecount::count" if args.len() == 2 => return Ok(format!("(Rust.bytecount {})", args.join(" "))),
             _ => {}
         }
         // newtype constructor
@@ -1689,6 +1727,12 @@ impl<'a> Fx<'a> {
             ("min", 1) => format!("(Rust.min {} {})", recv, a),
             ("enumerate", 0) => format!("(Rust.enumerate {})", recv),
             ("try_fold", 2) => format!("(Rust.try_fold_option {} {})", recv, a),
+            ("as_bytes", 0) => format!("(Rust.as_bytes {})", recv),
+            ("rev", 0) => format!("(Rust.rev {})", recv),
+            ("position", 1) => format!("(Rust.position {} {})", recv, a),
+            ("lines", 0) => format!("(Rust.lines {})", recv),
+            ("trim_end", 0) => format!("(Rust.trim_end {})", recv),
+            ("next", 0) => format!("(Rust.iter_first {})", recv),
             ("char_indices", 0) => format!("(Rust.char_indices {})", recv),
             ("next_back", 0) => format!("(Rust.next_back {})", recv),
             ("map_or", 2) => format!("(Rust.map_or {} {})", recv, a),
@@ -1759,7 +1803,11 @@ fn check_block_attrs(b: &Block) -> R<()> {
 }
 
 fn is_configured(ty: &str, name: &str) -> bool {
-    config::ITEMS.iter().any(|i| matches!(i, config::Item::Method { ty: t, tr, name: n } if *t == ty && tr.is_empty() && *n == name))
+    config::ITEMS.iter().any(|i| match i {
+        config::Item::Method { ty: t, tr, name: n } => *t == ty && tr.is_empty() && *n == name,
+        config::Item::CanonicalBody { ty: t, tr, name: n, .. } => *t == ty && tr.is_empty() && *n == name,
+        _ => false,
+    })
 }
 
 fn as_ptr_operand(e: &Expr) -> Option<&Expr> {
